@@ -71,6 +71,12 @@ const (
 )
 
 func defConditions() {
+	// The standard conditions belong to the common-lisp package, like the
+	// built-in classes, so that they are found in any package that uses it.
+	cp := slip.CurrentPackage
+	slip.CurrentPackage = &slip.CLPkg
+	defer func() { slip.CurrentPackage = cp }()
+
 	defCondition()
 	defWarning()
 	defSeriousCondition()
